@@ -263,6 +263,12 @@ fn generate_deserialize_with_derive(
             .attrs
             .push(parse_quote!(#[serde(rename = #qualified_name)]));
 
+        // A variant without fields carries no parameters. The peer may say so by leaving the
+        // `parameters` member out, or by sending `null` or an empty object.
+        if matches!(variant.fields, Fields::Unit) {
+            variant.fields = Fields::Unnamed(parse_quote!((Option<__ZlinkNoParameters>)));
+        }
+
         // Add serde rename attributes to fields based on their serialized names.
         if let (Fields::Named(fields), Some(field_info)) = (&mut variant.fields, field_info) {
             for (field, name_str) in fields.named.iter_mut().zip(&field_info.name_strings) {
@@ -302,7 +308,7 @@ fn generate_deserialize_with_derive(
             let variant_name = &variant.ident;
             match &variant.fields {
                 Fields::Unit => quote! {
-                    __ZlinkDeserHelper::#variant_name => #name::#variant_name
+                    __ZlinkDeserHelper::#variant_name(_) => #name::#variant_name
                 },
                 Fields::Named(fields) => {
                     let field_names: Vec<_> = fields
@@ -331,6 +337,9 @@ fn generate_deserialize_with_derive(
             where
                 D: serde::Deserializer<'de>,
             {
+                #[derive(serde::Deserialize)]
+                struct __ZlinkNoParameters {}
+
                 #[derive(serde::Deserialize)]
                 #[serde(tag = "error", content = "parameters")]
                 enum __ZlinkDeserHelper #orig_impl_generics #orig_where_clause {
